@@ -40,6 +40,14 @@ SampleRow(b, ks) == IF b = 2 /\ ks % 3 = 1 THEN <<ChromOf(b), StartOf(b), EndOf(
 Extra == <<2, 5000, 5100, 64, 0>>                                   \* a sample bin the reference does not have
 
 Rev(s) == [k \in 1..Len(s) |-> s[Len(s) + 1 - k]]
+(* scenarios tie2 / tie3: bins that share a START but have different ends (overlapping baits with distinct        *)
+(* coordinates: not refused, matched by coordinate, ordered by end): bins 1,2 at chr1:300 and bins 3,4 at chr2:900  *)
+(* (tie2), or bins 1,2,3 all at chr1:300 (tie3); every table is then given in reverse order                         *)
+Retie(x, sc) == LET b == x[2] \div 300 IN
+    IF sc = "tie2" /\ b \in {2, 4} THEN [x EXCEPT ![2] = 300 * (b - 1)]
+    ELSE IF sc = "tie3" /\ b \in {2, 3} THEN [x EXCEPT ![1] = 1, ![2] = 300]
+    ELSE x
+RetieAll(t, sc) == [k \in 1..Len(t) |-> Retie(t[k], sc)]
 Input(bad, corr, ks, p, sc, cols) ==
     LET ref0 == [b \in 1..NB |-> RefRow(b, b \in bad, ks, Cardinality(bad) % 2 = 0)]
         tb == SelectSeq([b \in 1..NB |-> b], LAMBDA b : PatOf(p, b) = "T")
@@ -50,15 +58,18 @@ Input(bad, corr, ks, p, sc, cols) ==
                  [] sc = "missing" -> tgt0 \o <<Extra>>
                  [] sc = "dupT" -> tgt0 \o <<tgt0[1]>>
                  [] sc = "perm" -> Rev(tgt0)
+                 [] sc \in {"tie2", "tie3"} -> Rev(RetieAll(tgt0, sc))
                  [] OTHER -> tgt0
         ant == CASE sc = "subset" -> IF ant0 # <<>> THEN Tail(ant0) ELSE ant0
                  [] sc = "noanti" -> <<>>
                  [] sc = "missingA" -> ant0 \o <<Extra>>
                  [] sc = "dupA" -> IF ant0 # <<>> THEN ant0 \o <<ant0[1]>> ELSE ant0
                  [] sc = "perm" -> Rev(ant0)
+                 [] sc \in {"tie2", "tie3"} -> Rev(RetieAll(ant0, sc))
                  [] OTHER -> ant0
         ref == CASE sc = "dupRef" -> ref0 \o <<ref0[NB]>>
                  [] sc \in {"perm", "permR"} -> Rev(ref0)
+                 [] sc \in {"tie2", "tie3"} -> Rev(RetieAll(ref0, sc))
                  [] OTHER -> ref0
     IN [op |-> "fix", nauto |-> 3,
         gc |-> "gc" \in corr, edge |-> "edge" \in corr, rmask |-> "rmask" \in corr,
